@@ -90,7 +90,10 @@ func (commander *Commander) exec(ctx context.Context, parameters Parameters, scr
 			if err := commander.referencer.take(referenceTxReference, script.Reference); err != nil {
 				return nil, nil, NewErrConflict()
 			}
-			defer commander.referencer.release(referenceTxReference, script.Reference)
+			// the reservation must cover the store lookup up to the persistence of the log
+			executionContext.releaseOnReturn(func() {
+				commander.referencer.release(referenceTxReference, script.Reference)
+			})
 			verifhook.Yield(ctx, "ref.taken")
 
 			_, err := commander.store.GetTransactionByReference(ctx, script.Reference)
